@@ -7,8 +7,14 @@
 //!   3. `from_multiple::<IgnoredAny>` yields one item,
 //!   4. `SchemaSeed(ty)` over `with_deserializer_from_str` gives `v` back (floats bitwise, `Map`
 //!      types compared as unordered pair sets).
+//! Workload: (A) all types of the shape grammar with <= 4 (quick) / <= 5 (thorough) type nodes x
+//! small values x the option cube; (B) the same small trees with block-scalar / long / CR leaves;
+//! (C) the `anchor_generator` option judged on shared `RcAnchor` pairs (names only may change);
+//! (E) the small trees serialized without announced lengths; (D) random trees to depth 6.
 //! Failing cases are shrunk by a deterministic typed shrinker (`tygen::Shrinker`) to a locally
 //! minimal case; the signature is the class of that minimal case (`classes.rs`).
+//! `yaml_12` emits a `%YAML 1.2` directive without `---` (reported under its own signature); the
+//! rest of such a document is still judged with the missing `---` line inserted.
 
 mod classes;
 
@@ -26,7 +32,19 @@ fn fails(ty: &Ty, v: &TVal, o: &Opt) -> bool {
     tygen::roundtrip(ty, v, o).fail.is_some()
 }
 
+/// Fails only when sequence / map lengths are not announced to the serializer.
+fn fails_nolen_only(ty: &Ty, v: &TVal, o: &Opt) -> bool {
+    if !o.empty_as_braces && tygen::has_empty_collection(ty, v) {
+        return false;
+    }
+    let Ok(text) = tygen::emit(&tygen::NoLen(TSer(ty, v)), o) else { return !fails(ty, v, o) };
+    let mut skipped = false;
+    let t = if tygen::directive_without_doc_start(&text) { tygen::insert_doc_start(&text) } else { text };
+    tygen::check_text(ty, v, &t, &mut skipped).is_some() && !fails(ty, v, o)
+}
+
 thread_local! {
+    static SHRINKER_NOLEN: RefCell<Shrinker> = RefCell::new(Shrinker::new(fails_nolen_only));
     static SHRINKER: RefCell<Shrinker> = RefCell::new(Shrinker::new(fails));
     /// per-thread number of full violation reports per signature (the rest is only counted)
     static REPORTED: RefCell<HashMap<String, u64>> = RefCell::new(HashMap::new());
@@ -323,6 +341,13 @@ fn main() {
         let o = Opt::from_json(&c["opt"]);
         if c["part"].as_str() == Some("anchored-pair") {
             check_anchored(&run, &ty, &v, &o);
+        } else if c["part"].as_str() == Some("unknown-length") {
+            run.eval();
+            if fails_nolen_only(&ty, &v, &o) {
+                let min = SHRINKER_NOLEN.with(|s| s.borrow_mut().minimal(&ty, &v, &o));
+                let sig = classes::signature(&min).replacen("C13:", "C13:unknown-length:", 1);
+                report(&run, &sig, || case_json(&ty, &v, &o, None, "unknown-length"), || "fails only without announced lengths".into());
+            }
         } else {
             check_case(&run, &ty, &v, &o, "replay");
         }
@@ -405,6 +430,21 @@ fn main() {
         });
     }
 
+    // ---- part B2: unit variants whose name is longer than `folded_wrap_chars` (they become folded
+    // block scalars): every small tree with a unit variant under folded_wrap_chars = 1
+    {
+        let small: Vec<(Ty, TVal)> = ty::small_pairs(3.min(max_nodes), &g, cap);
+        let hosts: Vec<&(Ty, TVal)> = small.iter().filter(|(t, v)| tygen::any_node(t, v, &|t, x| tygen::kind(t, x) == "unit-variant")).collect();
+        run.count("folded_unit_variant/host_pairs", hosts.len() as u64);
+        let d = Opt::default();
+        let opts_w = [Opt { folded_wrap_chars: 1, ..d }, Opt { folded_wrap_chars: 1, indent: 4, compact_list_indent: true, ..d }];
+        par_range(hosts.len(), |i| {
+            let (t, v) = hosts[i];
+            check_pair_all_opts(&run, t, v, &opts_w, "folded-unit-variant");
+            flush_local(&run);
+        });
+    }
+
     // ---- part C: anchors with default and custom names around every small value
     {
         let small: Vec<(Ty, TVal)> = ty::small_pairs(tier.pick(2, 3).min(max_nodes), &g, cap);
@@ -414,6 +454,57 @@ fn main() {
             let (t, v) = &small[i];
             for o in &opts_c {
                 check_anchored(&run, t, v, o);
+            }
+            flush_local(&run);
+        });
+    }
+
+    // ---- part E: the same small trees serialized without announced lengths (serialize_seq(None) /
+    // serialize_map(None), as iterator-backed and flattened values do)
+    {
+        let small: Vec<(Ty, TVal)> = ty::small_pairs(3.min(max_nodes), &g, cap);
+        run.count("unknown_length/host_pairs", small.len() as u64);
+        par_range(small.len(), |i| {
+            let (t, v) = &small[i];
+            for o in &opts {
+                if o.anchor_gen || o.yaml_12 {
+                    continue;
+                }
+                run.eval();
+                if !o.empty_as_braces && tygen::has_empty_collection(t, v) {
+                    lcount("unspecified/empty-collection-without-braces", 1);
+                    continue;
+                }
+                let a = tygen::emit(&TSer(t, v), o);
+                let b = tygen::emit(&tygen::NoLen(TSer(t, v)), o);
+                match (&a, &b) {
+                    (Ok(x), Ok(y)) if x == y => {
+                        lcount("unknown_length/same-text", 1);
+                        continue;
+                    }
+                    _ => {}
+                }
+                lcount("unknown_length/different-text", 1);
+                if fails_nolen_only(t, v, o) {
+                    let min = SHRINKER_NOLEN.with(|s| s.borrow_mut().minimal(t, v, o));
+                    let sig = classes::signature(&min).replacen("C13:", "C13:unknown-length:", 1);
+                    report(
+                        &run,
+                        &sig,
+                        || {
+                            let mut c = case_json(t, v, o, b.as_ref().ok().map(|s| s.as_str()), "unknown-length");
+                            c["minimal"] = json!({"ty_text": min.ty.to_string(), "v": format!("{:?}", min.v), "opt_non_default": min.o.non_default(),
+                                "emitted": tygen::emit(&tygen::NoLen(TSer(&min.ty, &min.v)), &min.o).ok()});
+                            c
+                        },
+                        || "fails only when the lengths of sequences / maps are not announced".to_string(),
+                    );
+                } else if b.is_ok() && !fails(t, v, o) {
+                    lcount("unknown_length/held", 1);
+                    run.nontrivial(tygen::hash_case(t, v, o) ^ 0x0011_e400);
+                } else {
+                    lcount("unknown_length/fails-with-known-length-too", 1);
+                }
             }
             flush_local(&run);
         });
